@@ -366,6 +366,23 @@ func c11Run(c *core.Ctx) *core.Result {
 		r.ViolateD("filtered-dest-diverged", det, "dest differs from the reference-filtered source (filters %v):\n%s", levels, strings.Join(trunc(diffs, 8), "\n"))
 	}
 	r.Count("entries_compared", int64(len(expView.Entries)))
+	// --- the filter configuration changes between two transfers into the same
+	// destination (here: dropped altogether): which member of a link group
+	// stands for it changes with it, and the destination has to follow
+	if pfx == "" && !k1 && len(r.Viols) == 0 && core.NewRand(core.Mix(c.Seed, "C11-second-transfer", c.Index)).P(1, 3) {
+		res2 := runSync(syncOpt{Cfg: wire.Config{Cap: 8}, Src: base, Dest: dest})
+		if !checkHang(r, res2, "second transfer, unfiltered") {
+			r.Count("second_transfers_with_another_filter", 1)
+			if res2.SendErr != nil || res2.RecvErr != nil {
+				r.ViolateD("second-transfer-failed", det, "unfiltered transfer into the result of the filtered one failed: send=%v recv=%v", res2.SendErr, res2.RecvErr)
+			} else if got2, err := tree.Snapshot(dest, tree.SnapOpt{}); err == nil {
+				exp2, created2 := expectSync(snap, got, got2)
+				if diffs := tree.Diff(exp2, got2, syncMask(created2)); len(diffs) > 0 {
+					r.ViolateD("second-transfer-diverged", det, "after an unfiltered transfer into the result of the filtered one (filters %v) dest differs from the source:\n%s", levels, strings.Join(trunc(diffs, 8), "\n"))
+				}
+			}
+		}
+	}
 	// --- open through the view
 	listed := map[string]bool{}
 	for _, p := range sentPaths {
